@@ -2,7 +2,7 @@
 // (reference leg).
 //
 // The file is one translation unit when compiled plainly, and is compiled in parts (-DC01_PART=k, see pcxx.py) by the
-// check so that the element-type x capacity instantiations build in parallel: part 0 holds main(), the parser and the
+// check so that the element-type x capacity instantiations build in parallel (10 parts): part 0 holds main(), the parser and the
 // reference leg, every part holds the flavours listed in its `#if PART(k)` block.
 #include "common.hpp"
 
@@ -84,6 +84,27 @@ struct MoveOnly {
     friend bool operator==(MoveOnly const& a, MoveOnly const& b) { return a.v == b.v; }
     friend bool operator<(MoveOnly const& a, MoveOnly const& b) { return a.v < b.v; }
 };
+// trivially default constructible and trivially destructible, but with user-provided (noexcept) copy / move
+// operations: uninitialized_array keeps such elements in a plain T[N] (its `sufficiently_trivial` specialisation) while
+// inplace_vector must still copy them one by one (the class of library fix 5d7098b); static_vector uses the non-trivial
+// storage.  Self-checking like NxCopy; a value-initialised object (v = 0, self = null) is what T{} gives.
+struct TdcCopy {
+    int v;
+    TdcCopy const* self;
+    TdcCopy() = default;
+    TdcCopy(int x) noexcept : v{x}, self{this} { }   // NOLINT
+    TdcCopy(TdcCopy const& o) noexcept : v{o.val()}, self{this} { }
+    TdcCopy(TdcCopy&& o) noexcept : v{o.val()}, self{this} { }
+    auto operator=(TdcCopy const& o) noexcept -> TdcCopy& { v = o.val(); self = this; return *this; }
+    auto operator=(TdcCopy&& o) noexcept -> TdcCopy& { v = o.val(); self = this; return *this; }
+    ~TdcCopy() = default;
+    [[nodiscard]] bool ok() const noexcept { return self == this || (self == nullptr && v == 0); }
+    [[nodiscard]] int val() const noexcept { return ok() ? v : -777; }
+    friend bool operator==(TdcCopy const& a, TdcCopy const& b) { return a.v == b.v; }
+    friend bool operator<(TdcCopy const& a, TdcCopy const& b) { return a.v < b.v; }
+};
+static_assert(std::is_trivially_default_constructible_v<TdcCopy> && std::is_trivially_destructible_v<TdcCopy>);
+static_assert(!std::is_trivially_copy_constructible_v<TdcCopy> && !std::is_trivially_move_constructible_v<TdcCopy> && !std::is_trivial_v<TdcCopy>);
 // trivial, but not an arithmetic type (trivial storage: array<Pod, N>); w shadows v
 struct Pod {
     int v;
@@ -109,12 +130,13 @@ inline int get(Tracked const& e) { return e.v; }
 inline int get(NxCopy const& e) { return e.ok() ? e.v : -999; }
 inline int get(MoveOnly const& e) { return e.ok() ? e.v : -999; }
 inline int get(Pod const& e) { return e.w == e.v * 7 ? e.v : -999; }
+inline int get(TdcCopy const& e) { return e.ok() ? e.v : -999; }
 inline int get(std::string const& e) { return e.empty() ? 0 : (e.size() == 24 ? std::stoi(e) : -999); }
 template <typename T> inline constexpr bool counted_v = std::is_same_v<T, Tracked> || std::is_same_v<T, NxCopy> || std::is_same_v<T, MoveOnly>;
 // the argument handed to emplace-style members: the int itself where T is constructed from an int
 template <typename T> inline auto mkarg(int v)
 {
-    if constexpr (std::is_same_v<T, int> || counted_v<T>) { return v; } else { return mk<T>(v); }
+    if constexpr (std::is_same_v<T, int> || counted_v<T> || std::is_same_v<T, TdcCopy>) { return v; } else { return mk<T>(v); }
 }
 template <typename T> inline std::vector<T> mkvec(std::vector<i64> const& xs)
 {
@@ -625,6 +647,8 @@ int c01_part4(std::string const& fl, i64 cap, Steps const& steps, Out& impl);
 int c01_part5(std::string const& fl, i64 cap, Steps const& steps, Out& impl);
 int c01_part6(std::string const& fl, i64 cap, Steps const& steps, Out& impl);
 int c01_part7(std::string const& fl, i64 cap, Steps const& steps, Out& impl);
+int c01_part8(std::string const& fl, i64 cap, Steps const& steps, Out& impl);
+int c01_part9(std::string const& fl, i64 cap, Steps const& steps, Out& impl);
 
 #if PART(0)
 int c01_part0(std::string const& fl, i64 cap, Steps const& steps, Out& impl)
@@ -688,6 +712,27 @@ int c01_part7(std::string const& fl, i64 cap, Steps const& steps, Out& impl)
     if (fl == "iv_mov") { return MK_IV(MoveOnly, 0, 1, 3, 4); }
     if (fl == "iv_str") { return MK_IV(std::string, 1, 3, 4); }
     if (fl == "iv_pod") { return MK_IV(Pod, 3, 16); }
+    return -1;
+}
+#endif
+
+// the non-trivial storage implementations at the uint8 / uint16 size-type boundary (review round: they were only
+// instantiated up to capacity 16, so their own size arithmetic never met a boundary)
+#if PART(8)
+int c01_part8(std::string const& fl, i64 cap, Steps const& steps, Out& impl)
+{
+    if (fl == "sv_trk") { return MK_SV(Tracked, 254, 255, 256); }
+    if (fl == "st_trk") { return MK_ST(Tracked, 255, 256); }
+    return -1;
+}
+#endif
+#if PART(9)
+int c01_part9(std::string const& fl, i64 cap, Steps const& steps, Out& impl)
+{
+    if (fl == "iv_trk") { return MK_IV(Tracked, 254, 255, 256); }
+    if (fl == "sv_mov") { return MK_SV(MoveOnly, 255, 256); }
+    if (fl == "iv_tdc") { return MK_IV(TdcCopy, 1, 3, 4); }
+    if (fl == "sv_tdc") { return MK_SV(TdcCopy, 3, 4); }
     return -1;
 }
 #endif
@@ -903,7 +948,7 @@ bool vh::run_case(std::string const& op, Toks& in, Out& impl, Out& ref)
     auto steps   = parse(in);
     int r        = -1;
     using part_fn = int (*)(std::string const&, i64, Steps const&, Out&);
-    for (part_fn f : {c01_part0, c01_part1, c01_part2, c01_part3, c01_part4, c01_part5, c01_part6, c01_part7}) {
+    for (part_fn f : {c01_part0, c01_part1, c01_part2, c01_part3, c01_part4, c01_part5, c01_part6, c01_part7, c01_part8, c01_part9}) {
         r = f(flavour, cap, steps, impl);
         if (r != -1) { break; }
     }
